@@ -1110,6 +1110,7 @@ func runExec(t *testing.T, scn *Scenario, prefix []int, pr pruner, trace bool) (
 		w.store = &simStore{w: w, m: map[uint][]byte{}}
 		mqtt.VerifGate = w.sch.Gate
 		mqtt.VerifGateSel = w.sch.GateSel
+		mqtt.VerifLockWait = w.sch.LockWait
 		mqtt.VerifGoStart = w.sch.goStart
 		mqtt.VerifGoEnd = w.sch.goEnd
 		mqtt.VerifPanic = func(r any) { w.panics = append(w.panics, fmt.Sprint(r)) }
